@@ -107,3 +107,89 @@ Proof.
   unfold squash. destruct kd0; simpl; try discriminate;
     destruct (2 <? _)%nat; try discriminate; intros [= <-]; auto.
 Qed.
+
+(* the kind of the result is the kind of one of the model leaves *)
+Lemma good_env_exists k : exists e, good_env k e.
+Proof.
+  destruct (is_spin k) eqn:Es.
+  - exists (fun _ => 1). unfold good_env. destruct k; simpl in *; try discriminate; intros i; left; reflexivity.
+  - exists (fun _ => 0). unfold good_env. destruct k; simpl in *; try discriminate; try exact I; intros i; left; reflexivity.
+Qed.
+
+Lemma m_scale_keys_kind f ks : forall m m', m_scale_keys m ks f = Ok m' -> kd m' = kd m.
+Proof.
+  induction ks as [|k ks IH]; simpl; intros m m' H; [injection H as <-; reflexivity|].
+  inv_bind H. inv_bind H. rewrite (IH _ _ H). apply m_setitem_spec in E0. destruct E0 as (_ & _ & _ & K & _). exact K.
+Qed.
+
+Lemma apply_bop_kind ip o m v r : apply_bop ip o m v = Ok r -> kd r = kd m.
+Proof.
+  intros H. destruct (good_env_exists (kd m)) as [e He]. destruct o, ip; simpl in H.
+  - apply (m_iadd_eval e _ _ _ H He).
+  - apply (m_add_eval e _ _ _ H He).
+  - apply (m_isub_eval e _ _ _ H He).
+  - apply (m_sub_eval e _ _ _ H He).
+  - unfold m_imul in H. destruct v as [b|t|c].
+    + destruct (clear_for_imul_spec m) as [_ Hk]. rewrite <- Hk in He.
+      destruct (m_mul_rows_eval e _ _ _ _ H He) as [_ B]. congruence.
+    + destruct (clear_for_imul_spec m) as [_ Hk]. rewrite <- Hk in He.
+      destruct (m_mul_rows_eval e _ _ _ _ H He) as [_ B]. congruence.
+    + unfold m_scale in H. eapply m_scale_keys_kind, H.
+  - apply (m_mul_eval e _ _ _ H He).
+Qed.
+
+Lemma m_create_kind k t m : m_create k t = Ok m -> kd m = k.
+Proof. intros H. destruct (good_env_exists k) as [e He]. apply (m_create_eval e _ _ _ H He). Qed.
+
+Lemma apply_rbop_kind o m v r : apply_rbop o m v = Ok r -> kd r = kd m.
+Proof.
+  intros H. destruct (good_env_exists (kd m)) as [e He]. destruct o; simpl in H.
+  - apply (m_add_eval e _ _ _ H He).
+  - apply (m_rsub_eval e _ _ _ H He).
+  - apply (m_mul_eval e _ _ _ H He).
+Qed.
+
+Lemma m_copy_kind m c : m_copy m = Ok c -> kd c = kd m.
+Proof. intros H. destruct (good_env_exists (kd m)) as [e He]. apply (m_copy_eval e _ _ H He). Qed.
+Lemma m_imul_kind m o r : m_imul m o = Ok r -> kd r = kd m.
+Proof. intros H. apply (apply_bop_kind true OpMul m o r H). Qed.
+Lemma m_pow_loop_kind old n : forall m m', m_pow_loop m old n = Ok m' -> kd m' = kd m.
+Proof.
+  induction n as [|n IH]; cbn [m_pow_loop]; intros m m' H; [injection H as <-; reflexivity|].
+  destruct (m_imul m (OModel old)) as [a|] eqn:E; cbn [bind] in H; [|discriminate].
+  rewrite (IH _ _ H). apply (m_imul_kind _ _ _ E).
+Qed.
+Lemma m_ipow_kind m n r : m_ipow m n = Ok r -> kd r = kd m.
+Proof.
+  unfold m_ipow. intros H. destruct (n <=? 0)%Z; [discriminate|]. destruct (n =? 1)%Z; [injection H as <-; reflexivity|].
+  inv_bind H. apply (m_pow_loop_kind _ _ _ _ H).
+Qed.
+Lemma m_pow_kind m n r : m_pow m n = Ok r -> kd r = kd m.
+Proof. unfold m_pow. intros H. inv_bind H. rewrite (m_ipow_kind _ _ _ H). apply (m_copy_kind _ _ E). Qed.
+Lemma m_itruediv_kind m c r : m_itruediv m c = Ok r -> kd r = kd m.
+Proof. unfold m_itruediv, m_scale. apply m_scale_keys_kind. Qed.
+Lemma m_truediv_kind m c r : m_truediv m c = Ok r -> kd r = kd m.
+Proof. unfold m_truediv. intros H. inv_bind H. rewrite (m_itruediv_kind _ _ _ H). apply (m_copy_kind _ _ E). Qed.
+
+Theorem interp_kind (P : kind -> Prop) e : forall m, leaves P e -> interp e = Ok (OModel m) -> P (kd m).
+Proof.
+  induction e as [k t|t|c|ip o a IHa b IHb|ip o a IHa|a IHa|ip a IHa n|ip a IHa c]; cbn [interp leaves]; intros m Hl H.
+  - inv_bind H. injection H as <-. rewrite (m_create_kind _ _ _ E). exact Hl.
+  - discriminate.
+  - discriminate.
+  - destruct Hl as [Hla Hlb]. inv_bind H. inv_bind H. destruct a0 as [ma|ta|ca].
+    + inv_bind H. injection H as <-. rewrite (apply_bop_kind _ _ _ _ _ E1). apply (IHa _ Hla eq_refl).
+    + destruct a1 as [mb| |]; try discriminate. inv_bind H. injection H as <-.
+      rewrite (apply_rbop_kind _ _ _ _ E1). apply (IHb _ Hlb eq_refl).
+    + destruct a1 as [mb| |]; try discriminate. inv_bind H. injection H as <-.
+      rewrite (apply_rbop_kind _ _ _ _ E1). apply (IHb _ Hlb eq_refl).
+  - inv_bind H. destruct a0 as [ma| |]; try discriminate. inv_bind H. injection H as <-.
+    rewrite (apply_bop_kind _ _ _ _ _ E0). apply (IHa _ Hl eq_refl).
+  - inv_bind H. destruct a0 as [ma| |]; try discriminate. inv_bind H. injection H as <-.
+    unfold m_neg in E0. rewrite (apply_bop_kind false OpMul _ _ _ E0). apply (IHa _ Hl eq_refl).
+  - inv_bind H. destruct a0 as [ma| |]; try discriminate. inv_bind H. injection H as <-.
+    pose proof (IHa _ Hl eq_refl) as Pa. destruct ip; [rewrite (m_ipow_kind _ _ _ E0)| rewrite (m_pow_kind _ _ _ E0)]; exact Pa.
+  - inv_bind H. destruct a0 as [ma| |]; try discriminate. destruct (qzero c); [discriminate|].
+    inv_bind H. injection H as <-.
+    pose proof (IHa _ Hl eq_refl) as Pa. destruct ip; [rewrite (m_itruediv_kind _ _ _ E0)| rewrite (m_truediv_kind _ _ _ E0)]; exact Pa.
+Qed.
